@@ -1,4 +1,5 @@
 """C07 - each target built at most once per run; outcome independent of schedule (engine S + serial differential)."""
+import collections
 import os
 import re
 import shutil
@@ -22,7 +23,7 @@ def independent(m, ts):
 @st.composite
 def cases(draw, tier):
     proj = draw(sgen.graphs({"max_leaf": 6 if tier == "quick" else 10, "max_mid": 5 if tier == "quick" else 9,
-                             "p_csum": 20, "p_always": 15, "p_gate": 60}))
+                             "p_csum": 20, "p_always": 15, "p_gate": 60, "p_stem": 35, "p_postgate": 25}))
     L = proj["layers"]
     allt = L["tops"] + L["mids"] + L["leaves"]
     kind = draw(st.sampled_from(["redo", "redo", "ifchange"]))
@@ -46,7 +47,7 @@ def cases(draw, tier):
         js = {"tokens": draw(st.integers(0, 4)), "held": 0, "high": draw(st.integers(0, 1)) == 1}
     return {"project": proj, "invs": [{"argv": argv, "cwd": "", "env": env, "jobserver": js}], "targets": ts,
             "kind": kind, "prebuild": draw(st.integers(0, 1)) == 1, "schedule": draw(sgen.schedule()),
-            "sopts": {"coincide": draw(st.integers(0, 2)) > 0, "token_games": False,
+            "sopts": {"seed": draw(st.integers(0, 2 ** 31 - 1)), "coincide": draw(st.integers(0, 2)) > 0, "token_games": False,
                       "patient": draw(st.integers(0, 3)) == 0}}
 
 
@@ -121,6 +122,9 @@ def run_case(case, tier):
             out.events["c07:coincidence"] += 1
         if m.oob_used:
             out.events["c07:out-of-band-path"] += 1
+        stems = collections.Counter(t.split(".")[0] for t in set(m.executed))
+        if any(n >= 2 for n in stems.values()):
+            out.events["c07:same-stem-siblings-built"] += 1
         ctx = {"argv": inv.spec["argv"], "rc": inv.rc, "text": text[-1500:], "decisions": r.tl.decisions[-30:],
                "starts": dict(r.tl.starts), "model_executed": m.executed}
         # (1) at most once per run
